@@ -85,6 +85,8 @@ type Event struct {
 	Open    bool     `json:"open"`    // DB.IsOpen()
 	Handles bool     `json:"handles"` // the DB holds an open SQL handle
 	NDBs    int      `json:"ndbs"`    // databases managed by the Store
+	ExecFree bool    `json:"execFree"` // executor semaphore free (sampled only while no call is in flight)
+	ChkFree  bool    `json:"chkFree"`  // checkpoint lock free (same)
 	Pre     PreState `json:"pre"`
 }
 
@@ -857,9 +859,13 @@ func RunCase(c Case, baseDir string, hooks func(r *Runner, ls *litestream.DB)) (
 					stepNo++
 					ev := blank(c, stepNo)
 					ev.Op, ev.Arg, ev.Res = "ParStep", proc+":"+what, res
+					ev.ExecFree, ev.ChkFree = true, true
 					if what == "end" {
 						ev.Op = "ParEnd"
 						r.lsUp = r.ls != nil && r.ls.IsOpen()
+						if r.ls != nil && res == "ok" {
+							ev.ExecFree, ev.ChkFree = r.ls.VerifLocksFree()
+						}
 					}
 					r.observe(&ev)
 					ev.HasRead = r.ls != nil && r.ls.VerifHasReadLock()
@@ -908,6 +914,10 @@ func RunCase(c Case, baseDir string, hooks func(r *Runner, ls *litestream.DB)) (
 		ev.HasRead = r.ls != nil && r.ls.VerifHasReadLock()
 		ev.Open = r.ls != nil && r.ls.IsOpen()
 		ev.Handles = r.ls != nil && r.ls.SQLDB() != nil
+		ev.ExecFree, ev.ChkFree = true, true
+		if r.ls != nil && r.gated == nil {
+			ev.ExecFree, ev.ChkFree = r.ls.VerifLocksFree()
+		}
 		evs = append(evs, ev)
 	}
 	if c.Cfg.Audit {
@@ -923,5 +933,5 @@ func RunCase(c Case, baseDir string, hooks func(r *Runner, ls *litestream.DB)) (
 func blank(c Case, i int) Event {
 	return Event{T: c.ID, I: i, Res: "ok", Src: DBState{Pg: []int{}}, Integ: "none", Jrnl: "none", NewL0: []LtxObs{},
 		Remote: [][]int{}, Local: [][]int{}, Rest: NoRestore(), Ctl: -1, Cfg: c.Cfg, Audit: []AuditTx{}, Seq: -1, LockN: -1,
-		NewRem: []LtxObs{}, Calls: []string{}, Pre: EmptyPre()}
+		NewRem: []LtxObs{}, Calls: []string{}, Pre: EmptyPre(), ExecFree: true, ChkFree: true}
 }
